@@ -54,10 +54,10 @@ def make_proto(peer, neg):
 class Sess:
     """one BGP session of the real peer object, driven the way Peer._main drives it"""
 
-    def __init__(self, world, key):
+    def __init__(self, world, key, neg=None):
         self.w, self.key = world, key
         self.peer = world.peers()[key]
-        _, self.neg = c17._session()
+        self.neg = neg if neg is not None else c17._session()[1]
         self.table = PeerTable()
         self.consumed = 0
         self.up()
@@ -398,3 +398,48 @@ def cache_switched_on_case():
     if s.table.table != want:
         return {'what': 'adj-rib-out switched on by a reload is not honoured: an API route announced afterwards is not re-advertised on the next session', 'input': inp, 'intended': str(sorted(want.items())), 'peer': str(sorted(s.table.table.items()))}
     return None
+
+
+# ---------------------------------------------------------------------------------------------------------------------
+# "followed by an End-of-RIB marker for each NEGOTIATED family": also the families the peer does not list in its Graceful
+# Restart capability (RFC 4724 section 2: the marker is sent whether or not the capability was exchanged)
+def _neg_with_gr(listed):
+    import struct
+    from . import harness as H
+
+    nb = H.neighbor(local_as=65000, peer_as=65001, families='ipv4 unicast; ipv6 unicast;', capability='graceful-restart 120;')
+    caps = H.std_caps(65001) + [H.cap(64, struct.pack('!H', 120) + b''.join(struct.pack('!HBB', a, s, 0x80) for a, s in listed))]
+    neg, _, _ = H.negotiated(nb, H.peer_open_bytes(65001, 180, '9.9.9.9', caps))
+    return neg
+
+
+def gr_case(listed):
+    inp = {'families_in_the_peers_graceful_restart_capability': [list(f) for f in listed], 'negotiated': [[1, 1], [2, 1]]}
+    w = c17.World(V6_WORLD)
+    key = list(w.peers())[0]
+    try:
+        s = Sess(w, key, neg=_neg_with_gr(listed))
+        if not s.settle():
+            return {'what': 'the session never settles', 'input': inp}
+    except Exception as e:  # noqa
+        return {'what': f'path raised {type(e).__name__}: {str(e)[:200]}', 'input': inp}
+    fams = sorted((int(a), int(b)) for a, b in s.neg.families)
+    if fams != [(1, 1), (2, 1)]:
+        return {'what': f'harness: negotiated families are {fams}', 'input': inp, 'harness': True}
+    if sorted(s.table.eor) != fams:
+        return {'what': f'End-of-RIB markers {sorted(s.table.eor)} do not cover the negotiated families {fams} exactly once', 'input': inp}
+    if 'U' in s.order[s.order.index('E') :]:
+        return {'what': f'End-of-RIB before the table was complete (wire order {"".join(s.order)})', 'input': inp}
+    return None
+
+
+@bounded('C11', 'end-of-rib-whatever-the-peers-graceful-restart-lists')
+def eor_with_gr(tier, seed):
+    cases = [(), ((1, 1),), ((2, 1),), ((1, 1), (2, 1))]
+    fails = [f for f in (gr_case(c) for c in cases) if f]
+    return {'evaluations': len(cases), 'distinct_nontrivial': len(cases), 'exhaustive': True, 'bound': 'a peer whose Graceful Restart capability lists none, one or both of the two negotiated families: one End-of-RIB per negotiated family, after the table', 'rule': 'one case = the families listed', 'samples': [{'families_in_the_peers_graceful_restart_capability': [[1, 1]]}], 'failures': fails}
+
+
+@replayer('C11', 'end-of-rib-whatever-the-peers-graceful-restart-lists')
+def _replay_gr(f):
+    return gr_case(tuple(tuple(x) for x in f['input']['families_in_the_peers_graceful_restart_capability'])) is None
